@@ -753,9 +753,11 @@ CHECKS.update({"C05": c05, "C06": c06, "C07": c07, "C08": c08, "C17": c17, "C20"
 
 def c13(tier, seed, work):
     mcs = [F.model_check("Timing", c, work, workers=4) for c in
-           ["MC_Timing_TRUE_2.cfg", "MC_Timing_TRUE_3.cfg", "MC_Timing_TRUE_7.cfg", "MC_Timing_FALSE_2.cfg", "MC_Timing_FALSE_3.cfg", "MC_Timing_FALSE_7.cfg"]]
+           ["MC_Timing_TRUE_2.cfg", "MC_Timing_TRUE_3.cfg", "MC_Timing_TRUE_7.cfg", "MC_Timing_FALSE_2.cfg", "MC_Timing_FALSE_3.cfg", "MC_Timing_FALSE_7.cfg",
+            "MC_Timing_Hist.cfg"]]
     killed = []
-    for cfg, inv in [("Mutant_Timing_Nested.cfg", "C13_NeverBlocksPastDeadline"), ("Mutant_Timing_Backoff.cfg", "C13_NeverBlocksPastDeadline")]:
+    for cfg, inv in [("Mutant_Timing_Nested.cfg", "C13_NeverBlocksPastDeadline"), ("Mutant_Timing_Backoff.cfg", "C13_NeverBlocksPastDeadline"),
+                     ("Mutant_Timing_OwnCtx.cfg", "C13_NeverBlocksPastDeadline")]:
         if not F.expect_violation("Timing", cfg, work, inv):
             raise vlib.Inconclusive("model mutant %s did not violate %s" % (cfg, inv))
         killed.append({"cfg": cfg, "violates": inv})
